@@ -28,20 +28,42 @@ def main(c):
         "pause (the scheduler interleaves them); the stream counts as processed when a marker printed after the last resize reaches the "
         "screen (bound 6 s, repeated once before it counts; run in a child process because the race can kill the process)",
         "Draw clause: host = real Vaxis on the fake console, output judged by the RefTerm reference terminal (C01); window sizes from 1x1",
-        "a sequence that makes no progress for 15 s counts as blocking",
+        "a sequence that makes no progress for 15 s counts as blocking; sixel strings (device control strings with final q): 5 s per "
+        "sequence, in child processes that are replaced after a hang. Generated sixel numbers are boundary values up to 65536 and "
+        "values from 10^14 upward; the range between (an emulator without bounds would really allocate gigabytes) is not generated",
+        "replies to the child: a child in raw mode writes 20000 (thorough: up to 200000) requests for a report without reading the "
+        "answers, prints a marker and stays alive; the stream counts as processed when the marker reaches the screen (bound 8 s, "
+        "repeated once before it counts). That replies which the child never reads may be lost is not judged",
     ]
     if not c.replay:
         c.model_check(specs, "MC_EmuImpl.tla", "MC_EmuImpl.cfg" if c.tier == "quick" else "MC_EmuImpl_deep.cfg", workers=8)
         if c.tier != "quick":
             c.model_check(specs, "MC_EmuImpl.tla", "MC_EmuImpl_full.cfg", workers=8)
-        c.model_check(specs, "MC_EmuEvents.tla", "MC_EmuEvents.cfg", workers=2)
-        ok, _ = c.model_check(specs, "MC_EmuEvents.tla", "MC_EmuEvents_nodrain.cfg", workers=2, expect_violation=True)
-        c.notes.append("EmuEvents without the drain step (the code before the fix): TLC %s a stall" % ("does not find" if ok else "finds"))
-        # a host's Resize interleaved with update() on the PTY goroutine: safe with the mutex, an out-of-range index without
-        c.model_check(specs, "MC_EmuEventsResize.tla", "MC_EmuEventsResize.cfg", workers=2)
-        ok, _ = c.model_check(specs, "MC_EmuEventsResize.tla", "MC_EmuEventsResize_nolock.cfg", workers=2, expect_violation=True)
+        # the small models of the PTY goroutine run side by side (each is a JVM start and a few thousand states):
+        # (model, configuration, a violation is expected)
+        small = [
+            ("MC_EmuEvents.tla", "MC_EmuEvents.cfg", False),
+            ("MC_EmuEvents.tla", "MC_EmuEvents_nodrain.cfg", True),
+            # a host's Resize interleaved with update() on the PTY goroutine: safe with the mutex, an out-of-range index without
+            ("MC_EmuEventsResize.tla", "MC_EmuEventsResize.cfg", False),
+            ("MC_EmuEventsResize.tla", "MC_EmuEventsResize_nolock.cfg", True),
+            # replies to a child that does not read them: queued and written by a goroutine of their own, or written by
+            # the PTY goroutine itself (which then blocks with the child's output unread)
+            ("MC_EmuEventsReplies.tla", "MC_EmuEventsReplies.cfg", False),
+            ("MC_EmuEventsReplies.tla", "MC_EmuEventsReplies_sync.cfg", True),
+        ]
+        from concurrent.futures import ThreadPoolExecutor
+        with ThreadPoolExecutor(len(small)) as ex:
+            res = list(ex.map(lambda m: c.model_check(specs, m[0], m[1], workers=2, expect_violation=m[2])[0], small))
+        c.cov["models"].sort(key=lambda st: (st["model"], st["cfg"]))
+        # the counters were added to from several threads: recompute them from the per-model records
+        c.cov["states"] = sum(st.get("states", 0) for st in c.cov["models"])
+        c.cov["transitions"] = sum(st.get("transitions", 0) for st in c.cov["models"])
+        c.notes.append("EmuEvents without the drain step (the code before the fix): TLC %s a stall" % ("does not find" if res[1] else "finds"))
         c.notes.append("EmuEventsResize with Resize taking no lock (the code before the fix): TLC %s an out-of-range index"
-                       % ("does not find" if ok else "finds"))
+                       % ("does not find" if res[3] else "finds"))
+        c.notes.append("EmuEventsReplies with replies written by the PTY goroutine itself (the code before the fix): TLC %s the block"
+                       % ("does not find" if res[5] else "finds"))
     if not c.replay:
         emu_common.binding_selftest(c, drv, "c05", specs, SAFE[0], SAFE[1])
     if c.replay:
@@ -68,7 +90,12 @@ def main(c):
              "the emulator's whole function x boundary-parameter x resize alphabet on every screen up to 3x3 from prepared start "
              "states; EmuSafe is evaluated after EVERY parsed sequence and resize; "
              "draw family: emulator history x host size x window geometry, sentinel outside the window checked after every Draw; "
-             "stall family: event kind x count x consumer on the real PTY goroutine, and N host Resize calls over a cycle of sizes racing "
+             "state family also: sixel strings - every boundary, huge and overflowing number in each place where sixel data holds a "
+             "number (picture width, picture height, repeat count, colour number and components), one per scenario, and random "
+             "pictures (raster attributes, repeats, colour definitions, long payloads, characters outside the alphabet, control-string "
+             "parameters and terminators) between ordinary output and resizes; "
+             "stall family: event kind x count x consumer on the real PTY goroutine, request-for-report kind x count with a child that "
+             "never reads the answers, and N host Resize calls over a cycle of sizes racing "
              "with a child that writes without pause; state family also: resize histories on the alternate screen (saved cursor low "
              "on the primary screen, several shrink/grow steps; all sequences of 2 and 3 resizes over the sizes up to 3x3); "
              "distinct = distinct scenario descriptor")
